@@ -269,9 +269,104 @@ Example ex_stack_agrees :
   end.
 Proof. vm_compute. repeat split; reflexivity. Qed.
 
+(* ---------- closed with the optimizer (C05) and the validator (C06) ---------- *)
+Require Import PV.Valid.Validator PV.Opt.List PV.Opt.Pipeline PV.Peg.Close2.
+
+(* For every grammar G the validator accepts (`validate kw builtin vcfg G = []`, any keyword / built-in tables, any
+   validator configuration; only the uniqueness of rule names is used: termination is not needed) and that lies in the
+   decidable class `in_class` (PV.Peg.Close2; every conjunct is explained there: the lister class and the PEEK / POP and
+   tag restrictions are KNOWN FINDINGS, names_okb and literals_validb are hypotheses of C05 / facts about Rust Strings,
+   `optimize G <> None`, defined identifiers and RepOnce-needs-extras are derivable but NOT YET PROVED through the passes,
+   WHITESPACE / COMMENT failing with an unmodified stack is not established by restore_on_err):
+   the real pipeline `optimize` (six AST passes, to_optimized, restore_on_err; restorer flags of the repaired code,
+   fixes/C05-1 and C05-2; either unroller arithmetic `ovf`) returns, and the VM on its output parses rule r of input w
+   with forest f  iff  the Spec on the ORIGINAL grammar G matches with forest f.
+   Used: C05 `pipeline_preserves_outside_class` (same_meaning G (passes G)) and `restorer_fixed` (no alternative of
+   restore_on_err's output fails with a modified stack: the semantic reading of `rok`), `embed (to_optimized e) = e`
+   and `embed` erasing RestoreOnErr (Close1), C01_partial.  No hypothesis is left besides `cfg_ok cfg` (the memchr
+   arm of skip_until repaired or the feature off) and valid UTF-8 input.                                              *)
+Definition C01_conformance_statement : Prop :=
+  forall (kw builtin : name -> bool) (vcfg : Validator.vcfg) (ovf extras : bool) uranges cfg (G : grammar),
+    cfg_ok cfg -> validate kw builtin vcfg G = [] -> in_class ovf extras uranges G = true ->
+    exists OG, optimize ovf extras true true G = Some OG /\
+    forall r w f, valid_utf8 w -> has_rule G r = true ->
+      ((exists m q, vm_parse OG uranges cfg w m r false = OPairs q /\ forest q = f) <->
+       (exists n p sg, spec_parse G extras (uprop uranges) w n r = SMatch p sg f)).
+
+Theorem C01_conformance : C01_conformance_statement.
+Proof. intros kw builtin vcfg ovf extras uranges cfg G Hc Hv Hk. exact (conformance kw builtin vcfg ovf extras uranges cfg Hc G Hv Hk). Qed.
+
+(* the same as an instance of the full statement: valid = accepted by the validator, known = outside `in_class` *)
+Theorem C01_statement_closed : forall kw builtin vcfg ovf extras uranges cfg, cfg_ok cfg ->
+  C01_statement (fun G => validate kw builtin vcfg G = []) (fun G => in_class ovf extras uranges G = false)
+                (optimize ovf extras true true) extras uranges cfg.
+Proof.
+  intros kw builtin vcfg ovf extras uranges cfg Hc G Hv Hk.
+  apply (C01_conformance kw builtin vcfg ovf extras uranges cfg G Hc Hv). destruct (in_class ovf extras uranges G); [reflexivity|now elim Hk].
+Qed.
+
+(* non-vacuity: WHITESPACE, five modifiers, a repetition, choices; rotate, concatenate and factor all fire
+   WHITESPACE = _{ " " }   word = @{ ASCII_ALPHA ~ ASCII_ALPHA* }   hello = @{ ^"he" ~ ^"llo" }
+   kv = ${ word ~ "=" ~ word | word ~ ":" ~ word }   item = !{ hello | kv | word }
+   list = { SOI ~ item ~ ("," ~ item)* ~ EOI }  (entered left-nested, so that rotate fires)            *)
+Definition ei (s : string) : expr := EIdent (nm s).
+Definition es (s : string) : expr := EStr (nm s).
+Definition ex_src : grammar := [
+  {| rname := nm "WHITESPACE"; rty := RSilent; rexpr := es " " |};
+  {| rname := nm "word"; rty := RAtomic; rexpr := ESeq (ei "ASCII_ALPHA") (ERep (ei "ASCII_ALPHA")) |};
+  {| rname := nm "hello"; rty := RAtomic; rexpr := ESeq (EInsens (nm "he")) (EInsens (nm "llo")) |};
+  {| rname := nm "kv"; rty := RCompound;
+     rexpr := EChoice (ESeq (ei "word") (ESeq (es "=") (ei "word"))) (ESeq (ei "word") (ESeq (es ":") (ei "word"))) |};
+  {| rname := nm "item"; rty := RNonAtomic; rexpr := EChoice (ei "hello") (EChoice (ei "kv") (ei "word")) |};
+  {| rname := nm "list"; rty := RNormal;
+     rexpr := ESeq (ESeq (ESeq (ei "SOI") (ei "item")) (ERep (ESeq (es ",") (ei "item")))) (ei "EOI") |} ].
+
+Example ex_src_accepted : validate (fun _ => false) is_builtin cfg_fixed ex_src = [].
+Proof. vm_compute. reflexivity. Qed.
+Example ex_src_in_class : in_class false false no_unicode ex_src = true.
+Proof. vm_compute. reflexivity. Qed.
+(* the optimizer really rewrote it: kv factored, hello concatenated, list rotated *)
+Example ex_src_rewritten :
+  match optimize false false true true ex_src with
+  | Some OG =>
+      option_map oexpr_of (find_orule OG (nm "kv")) =
+        Some (OSeq (ri "word") (OChoice (OSeq (tx "=") (ri "word")) (OSeq (tx ":") (ri "word")))) /\
+      option_map oexpr_of (find_orule OG (nm "hello")) = Some (OInsens (nm "hello")) /\
+      option_map oexpr_of (find_orule OG (nm "list")) =
+        Some (OSeq (ri "SOI") (OSeq (ri "item") (OSeq (ORep (OSeq (tx ",") (ri "item"))) (ri "EOI"))))
+  | None => False
+  end.
+Proof. vm_compute. repeat split; reflexivity. Qed.
+(* both sides computed on "Hello, ab=cd , x:y,zz": the VM on the optimized rules and the Spec on the source rules *)
+Example ex_src_agrees :
+  match optimize false false true true ex_src with
+  | Some OG =>
+      match spec_parse ex_src false (uprop no_unicode) (nm "Hello, ab=cd , x:y,zz") 40 (nm "list"),
+            vm_parse OG no_unicode ex_cfg (nm "Hello, ab=cd , x:y,zz") 200 (nm "list") false with
+      | SMatch p _ f, OPairs q => p = 21 /\ forest q = f /\ fsize f = 14
+      | _, _ => False
+      end
+  | None => False
+  end.
+Proof. vm_compute. repeat split; reflexivity. Qed.
+(* the theorem applied *)
+Example ex_src_conforms :
+  exists OG, optimize false false true true ex_src = Some OG /\
+  forall r w f, valid_utf8 w -> has_rule ex_src r = true ->
+    ((exists m q, vm_parse OG no_unicode ex_cfg w m r false = OPairs q /\ forest q = f) <->
+     (exists n p sg, spec_parse ex_src false (uprop no_unicode) w n r = SMatch p sg f)).
+Proof.
+  apply (C01_conformance (fun _ => false) is_builtin cfg_fixed false false no_unicode ex_cfg ex_src).
+  - intros _. reflexivity.
+  - exact ex_src_accepted.
+  - exact ex_src_in_class.
+Qed.
+
 Print Assumptions C01_simulation.
 Print Assumptions C01_termination.
 Print Assumptions C01_sound.
 Print Assumptions C01_forward.
 Print Assumptions C01_partial.
 Print Assumptions C01_from_parts.
+Print Assumptions C01_conformance.
+Print Assumptions C01_statement_closed.
